@@ -383,6 +383,15 @@ def check(repo, rep, tier):
             rep.ok('R14.6', '%s:%s %s' % (mod.rel, fn.lineno, fn.name), '%s: private helper, shape-specific reads judged in its callers' % fn.name, nontrivial=False)
             continue
         par_ = getattr(fn, '_parent', None)
+        if isinstance(par_, ast.FunctionDef):
+            # a closure that does not call itself and is only ever called by name from its host and its sibling closures: the
+            # walker reads it in place there, under the tests the caller has made (slashes_agree(s, t) behind s.is_functor and ..)
+            uses_ = [c for c in ast.walk(par_) if isinstance(c, ast.Name) and c.id == fn.name and isinstance(c.ctx, ast.Load)]
+            direct_ = [c for c in uses_ if isinstance(getattr(c, '_parent', None), ast.Call) and c._parent.func is c]
+            recursive_ = any(any(p_ is fn for p_ in _parents_of(c)) for c in uses_)
+            if uses_ and len(direct_) == len(uses_) and not recursive_:
+                rep.ok('R14.6', '%s:%s %s' % (mod.rel, fn.lineno, fn.name), '%s: closure called only by name from its host, shape-specific reads judged in its callers' % fn.name, nontrivial=False)
+                continue
         if isinstance(par_, ast.ClassDef) and fn.name.startswith('_') and not fn.name.startswith('__'):
             uses_ = [a_ for a_ in ast.walk(mod.tree) if isinstance(a_, ast.Attribute) and a_.attr == fn.name and isinstance(a_.ctx, ast.Load)]
             as_arg = [a_ for a_ in uses_ if isinstance(getattr(a_, '_parent', None), ast.Call) and a_ in getattr(a_, '_parent').args]
